@@ -97,6 +97,7 @@ func c19(c *core.Check) {
 	c19Descriptors(c)
 	c19Ranges(c)
 	c19Copy(c)
+	c19RangeAuto(c)
 	r10 := c.Rule("R10", "decimal is the last resort for every integer: the automatic range used for decimal (numeric system) has the smallest and the largest integer as constant bounds, so no integer is refused by it", 2)
 	autoRangeRule(c, r10)
 	r11 := c.Rule("R11", "a fallback renders the same integer: every restart of renderValue with another style (fallback, decimal) passes on the parameter counterValue itself, never the absolute value taken for the systems that write the sign apart", 12)
@@ -580,6 +581,28 @@ func c19Descriptors(c *core.Check) {
 				}
 			}
 		})
+		// … and they are the extreme integers of the platform: nothing lies beyond an infinite bound
+		var minInt, maxInt int64 = -1 << 63, 1<<63 - 1
+		if pk := p.ByPath["css/validation"]; pk != nil && pk.TypesSizes != nil && pk.TypesSizes.Sizeof(types.Typ[types.Int]) == 4 {
+			minInt, maxInt = -1<<31, 1<<31-1
+		}
+		extreme := true
+		check := func(v ssa.Value) {
+			if k, isK := core.ConstInt(v); isK && (k <= -(1<<30) || k >= 1<<30) && k != minInt && k != maxInt {
+				extreme = false
+			}
+		}
+		core.Instrs(fn, func(in ssa.Instruction) {
+			switch x := in.(type) {
+			case *ssa.Store:
+				check(x.Val)
+			case *ssa.Phi:
+				for _, e := range x.Edges {
+					check(e)
+				}
+			}
+		})
+		r.Cond(extreme, "css/validation.range_ | infinite is unbounded", p.Pos(fn.Pos()), "the two infinities are the extreme values of int", "`infinite` is stored as a 32-bit bound: a counter beyond it (3000000000 with `range: infinite infinite`) is out of an unbounded range and falls back to decimal")
 		r.Cond(neg && pos, "css/validation.range_ | infinite", p.Pos(fn.Pos()), "both a negative and a positive infinity are stored", fmt.Sprintf("`infinite` stands for negative infinity: %v, positive infinity: %v — a range open below (`infinite 5`) cannot be written", neg, pos))
 	}
 	// order of application
@@ -825,4 +848,60 @@ func freshCopy(v ssa.Value, depth int) string {
 		return ""
 	}
 	return "the value " + exprName(v) + " itself"
+}
+
+// c19RangeAuto: `range: auto` is an explicit value.  The validator stores it with the Auto flag set, which is what
+// keeps an extending style's own `range: auto` from being replaced by the range of the style it extends (merge only
+// fills descriptors that are absent).
+func c19RangeAuto(c *core.Check) {
+	p := c.Prog
+	r := c.Rule("R12", "`range: auto` is recorded as specified: in the validator of the range descriptor the branch taken for the keyword auto stores a value whose Auto flag is true (an absent descriptor and an explicit auto must differ: merge fills only absent descriptors from the extended style)", 1)
+	fn := p.Fn("css/validation", "rangeD")
+	if fn == nil {
+		r.Anchor("css/validation.rangeD")
+		return
+	}
+	var atoms []ssa.Value
+	for _, a := range core.CondAtoms(fn) {
+		if bo, ok := a.(*ssa.BinOp); ok && bo.Op == token.EQL {
+			if s, isS := core.ConstStr(bo.Y); isS && s == "auto" {
+				atoms = append(atoms, a)
+			}
+		}
+	}
+	if len(atoms) == 0 {
+		r.Anchor("rangeD: keyword == \"auto\"")
+		return
+	}
+	// the block(s) reached only when the keyword is auto and that return
+	setsAuto := false
+	var at token.Pos
+	core.Instrs(fn, func(in ssa.Instruction) {
+		st, ok := in.(*ssa.Store)
+		if !ok {
+			return
+		}
+		fa, ok := st.Addr.(*ssa.FieldAddr)
+		if !ok || core.FieldName(fa) != "Auto" {
+			return
+		}
+		if k, isK := st.Val.(*ssa.Const); isK && k.Value != nil && k.Value.String() == "true" {
+			if g, _ := core.GuardedBy(fn, st.Block(), atoms, func(m map[ssa.Value]bool) bool {
+				for _, v := range m {
+					if v {
+						return true
+					}
+				}
+				return false
+			}); g {
+				setsAuto = true
+				at = st.Pos()
+			}
+		}
+	})
+	pos := p.Pos(fn.Pos())
+	if at != token.NoPos {
+		pos = p.Pos(at)
+	}
+	r.Cond(setsAuto, "css/validation.rangeD | auto sets the Auto flag", pos, "Auto = true stored on the auto branch", "the auto branch stores no Auto flag: an explicit `range: auto` looks absent and an extending style takes the range of the style it extends (`big-roman` extending lower-roman with range: auto renders 4000 as 4000 instead of mmmm)")
 }
